@@ -30,7 +30,7 @@ pub fn info() -> PropInfo {
         id: "C02",
         run,
         replay,
-        rule: "cases = (input, configuration, cut set, pending pattern, buffer policy). The record sequences (event or error, buffer_position, error_position after every call, up to and including the calls after the end) of read_event on the slice, read_event_into on the whole slice, read_event_into over the chunked BufRead and read_event_into_async over the chunked AsyncBufRead with the pending pattern must be identical. All 2^(n-1) cut sets for every enumerated string; single cuts, cut pairs, fixed piece sizes and random cut sets for longer inputs. Non-trivial = at least one cut falls strictly inside a markup construct. Two further enumerations vary SIZE and OFFSET: fourteen construct kinds (text, long name, quoted value with '>', many attributes, blanks inside tags, comment / CDATA / PI bodies with near-terminators, DOCTYPE with nested brackets, blank runs around text, reference runs, declaration, deep nesting) with an inner length 0..=70 placed after a prefix of 0..=130 bytes, and large inputs whose variable part is 255..70 001 bytes long (block-wise scanners, buffer growth, positions beyond 255 / 65 535, default BufReader capacity). A further stage interleaves RAW reads through Reader::stream() with the events (read_exact of 1..9 bytes, read_until(b'>') through the BufRead half, read_to_end; the sync and the async implementations): the bytes obtained, the positions after the raw read and every later record must be the same for the slice, the chunked BufRead and the chunked AsyncBufRead. Documents made of namespace-heavy pieces are read with NsReader::read_resolved_event / _into / _into_async: resolution result, event, error and positions of every call must agree between the three sources (also after ill-formedness errors the caller reads past).",
+        rule: "cases = (input, configuration, cut set, pending pattern, buffer policy). The record sequences (event or error, buffer_position, error_position after every call, up to and including the calls after the end) of read_event on the slice, read_event_into on the whole slice, read_event_into over the chunked BufRead and read_event_into_async over the chunked AsyncBufRead with the pending pattern must be identical. All 2^(n-1) cut sets for every enumerated string; single cuts, cut pairs, fixed piece sizes and random cut sets for longer inputs. Non-trivial = at least one cut falls strictly inside a markup construct. Two further enumerations vary SIZE and OFFSET: fourteen construct kinds (text, long name, quoted value with '>', many attributes, blanks inside tags, comment / CDATA / PI bodies with near-terminators, DOCTYPE with nested brackets, blank runs around text, reference runs, declaration, deep nesting) with an inner length 0..=70 placed after a prefix of 0..=130 bytes, and large inputs whose variable part is 255..70 001 bytes long (block-wise scanners, buffer growth, positions beyond 255 / 65 535, default BufReader capacity). A further stage interleaves RAW reads through Reader::stream() with the events (read_exact of 1..9 bytes, read_until(b'>') through the BufRead half, read_to_end; the sync and the async implementations): the bytes obtained, the positions after the raw read and every later record must be the same for the slice, the chunked BufRead and the chunked AsyncBufRead. Documents made of namespace-heavy pieces are read with NsReader::read_resolved_event / _into / _into_async: resolution result, event, error and positions of every call must agree between the three sources (also after ill-formedness errors the caller reads past). Corpus documents, soups and large inputs are also written to temporary files and read through Reader::from_file and NsReader::from_file: same records as the slice.",
         assumptions: &[
             "when the input starts with (a prefix of) a BOM or a UTF-16 signature the first piece is at least 4 bytes (the exception written into the property)",
             "the harness executor polls single-threaded; every Pending is preceded by a wake-up",
@@ -365,6 +365,75 @@ pub fn check_ns(c: &Case) -> Verdict {
     v
 }
 
+
+// ---------------------------------------------------------------------------------------------
+// Reader::from_file / NsReader::from_file: the file-backed constructors against the slice
+
+static FILE_NO: std::sync::atomic::AtomicU64 = std::sync::atomic::AtomicU64::new(0);
+
+pub fn check_file(c: &Case) -> Verdict {
+    let data = &c.input.0;
+    let dir = std::env::temp_dir().join(format!("qxv-c02-{}", std::process::id()));
+    let path = dir.join(format!("{}.xml", FILE_NO.fetch_add(1, std::sync::atomic::Ordering::Relaxed)));
+    if std::fs::create_dir_all(&dir).is_err() || std::fs::write(&path, data).is_err() {
+        return Verdict::excluded("temporary-file-could-not-be-written");
+    }
+    let base = read_slice(data, c.cfg);
+    let bound = call_bound(data.len()) + EXTRA_CALLS;
+    macro_rules! run_file {
+        ($r:ident) => {{
+            apply_cfg($r.config_mut(), c.cfg);
+            let mut out: Vec<Rec> = vec![];
+            let mut extra = 0;
+            let mut buf = Vec::new();
+            for _ in 0..bound {
+                if c.clear {
+                    buf.clear();
+                }
+                let ev = ev_of(&$r.read_event_into(&mut buf));
+                let done = matches!(ev, Ev::Eof) || ev.is_fatal();
+                out.push(Rec { ev, pos: $r.buffer_position(), err_pos: $r.error_position() });
+                if done || extra > 0 {
+                    extra += 1;
+                    if extra > EXTRA_CALLS {
+                        break;
+                    }
+                }
+            }
+            out
+        }};
+    }
+    let plain = match Reader::from_file(&path) {
+        Ok(mut r) => run_file!(r),
+        Err(e) => {
+            let _ = std::fs::remove_file(&path);
+            return Verdict::fail(format!("Reader::from_file failed on an existing file: {:?}", e));
+        }
+    };
+    let ns = match quick_xml::reader::NsReader::from_file(&path) {
+        Ok(mut r) => run_file!(r),
+        Err(e) => {
+            let _ = std::fs::remove_file(&path);
+            return Verdict::fail(format!("NsReader::from_file failed on an existing file: {:?}", e));
+        }
+    };
+    let _ = std::fs::remove_file(&path);
+    if let Some(d) = first_diff(&base, &plain) {
+        return Verdict::fail(format!("slice vs Reader::from_file: {} | cfg={} | slice: {} | file: {}", d, cfg_show(c.cfg), show_recs(&base), show_recs(&plain)));
+    }
+    // the namespace-aware reader adds namespace errors of its own; compare when it reported none
+    if !ns.iter().any(|r| matches!(&r.ev, Ev::Other(_))) {
+        if let Some(d) = first_diff(&base, &ns) {
+            return Verdict::fail(format!("slice vs NsReader::from_file: {} | cfg={} | slice: {} | file: {}", d, cfg_show(c.cfg), show_recs(&base), show_recs(&ns)));
+        }
+    }
+    let mut v = Verdict::pass(data.len() > 8192 || base.len() > 4);
+    if data.len() > 8192 {
+        v.classes.push("file-longer-than-the-BufReader-capacity");
+    }
+    v
+}
+
 fn rot(seed: u64, tag: &str, i: u64) -> SplitMix64 {
     SplitMix64::derive(seed, tag, i)
 }
@@ -554,6 +623,27 @@ fn run(ctx: &Ctx) {
         Case { input: B(input), cfg, cuts, pend, clear }
     });
     ctx.run_proptest("namespace-pieces-through-NsReader-resolving-reads-x-schedules", ctx.tier.pick(300_000, 3_000_000), ns_strat, check_ns);
+    // the file-backed constructors (files are written to the system's temporary directory and removed)
+    {
+        let nfile = ctx.tier.pick(1500u64, 12_000);
+        let ncorp = corpus.len() as u64;
+        ctx.run_indexed_mode(
+            "corpus-soups-and-large-inputs-through-from_file",
+            nfile,
+            false,
+            |i| {
+                let mut r = rot(seed, "c02-file", i);
+                let input = match i % 3 {
+                    0 => corpus[(i / 3 % ncorp) as usize].clone(),
+                    1 => gen::big_nth(i / 3 % gen::big_count()),
+                    _ => crate::engine::sample_strategy(&gen::soup_strategy(12), seed ^ (0xF11E + i), 1).pop().unwrap_or_default(),
+                };
+                Some(Case { input: B(input), cfg: (r.next() & 127) as u8, cuts: vec![], pend: vec![], clear: r.chance(3, 4) })
+            },
+            check_file,
+        );
+        let _ = std::fs::remove_dir(std::env::temp_dir().join(format!("qxv-c02-{}", std::process::id())));
+    }
     // raw reads through stream() between events
     let strat = (gen::soup_strategy(10), 0u8..128, prop::collection::vec(any::<u16>(), 0..8), prop::collection::vec(0u8..3, 0..8), prop::collection::vec((1u8..6, 0u8..9, prop_oneof![6 => Just(0u8), 3 => Just(1u8), 1 => Just(2u8)]), 1..4)).prop_map(|(input, cfg, cs, pend, raws)| {
         let len = input.len();
@@ -606,6 +696,10 @@ fn run(ctx: &Ctx) {
 }
 
 fn replay(stage: &str, case: &Value) -> Result<Verdict, String> {
+    if stage.contains("from_file") {
+        let c: Case = serde_json::from_value(case.clone()).map_err(|e| e.to_string())?;
+        return Ok(check_file(&c));
+    }
     if stage.contains("NsReader") {
         let c: Case = serde_json::from_value(case.clone()).map_err(|e| e.to_string())?;
         return Ok(check_ns(&c));
